@@ -193,25 +193,51 @@ def TDesc.applyOut (d : TDesc) (inputs : Vec) (o : Val) (p : PArg θ) : Except S
 
 /-! ## `PINN.eval_nn` -/
 
-/-- `output_slice`: a `jnp.s_[a:b]` or a `jnp.s_[i]` (entries of `shared_pinn_outputs`). -/
+/-- `output_slice`: a `jnp.s_[a:b]` (either bound may be absent, either may be negative) or an
+    integer `jnp.s_[i]` (possibly negative) — entries of `shared_pinn_outputs`, `slice_solution`. -/
 inductive OutSlice where
-  | range (a b : Nat)
-  | index (i : Nat)
+  | range (a b : Option Int)
+  | index (i : Int)
 deriving Repr, DecidableEq
 
 /-- `v[a:b]` for naturals `a`, `b`. -/
 def sliceFT (v : List α) (a b : Nat) : List α := (v.drop a).take (b - a)
 
+/-- Python's normalisation of a slice bound on a sequence of length `n`: a negative bound counts
+    from the end; the result is clamped to `[0, n]`. -/
+def normBound (n : Nat) (i : Int) : Nat :=
+  if i < 0 then (i + (n : Int)).toNat else min i.toNat n
+
+/-- `v[a:b]` with Python semantics (step 1): absent bounds are `0` and `len(v)`. -/
+def pySlice (v : List α) (a b : Option Int) : List α :=
+  sliceFT v (match a with | none => 0 | some a => normBound v.length a)
+    (match b with | none => v.length | some b => normBound v.length b)
+
+/-- `v[i]` with Python semantics: `-len(v) ≤ i < len(v)`, a negative index counts from the end.
+    (Outside that range JAX clamps instead of raising: not modelled, never generated.) -/
+def pyIndex (v : List α) (i : Int) : Option α :=
+  if 0 ≤ i then v[i.toNat]?
+  else if -i ≤ (v.length : Int) then v[(i + (v.length : Int)).toNat]?
+  else none
+
 /-- `if self.output_slice is not None: res = res[self.output_slice]`: a 0-d array cannot be indexed
-    (`IndexError`); an out-of-range integer index is clamped by JAX (not modelled). -/
+    (`IndexError`); a slice keeps the axis; an integer index drops it (0-d result, which the forced
+    trailing axis then turns into a length-one vector). -/
 def applySlice : Option OutSlice → Val → Except String Val
   | none, v => .ok v
   | some _, .scalar _ => .error eIndex
-  | some (.range a b), .vec v => .ok (.vec (sliceFT v a b))
+  | some (.range a b), .vec v => .ok (.vec (pySlice v a b))
   | some (.index i), .vec v =>
-    match v[i]? with
+    match pyIndex v i with
     | some r => .ok (.scalar r)
     | none => .error eUnmodelled
+
+/-- a selection that designates at least one existing component of a vector of length `n` -/
+def OutSlice.legal (n : Nat) : OutSlice → Bool
+  | .index i => decide (-(n : Int) ≤ i ∧ i < (n : Int))
+  | .range a b =>
+    decide ((match a with | none => 0 | some a => normBound n a)
+      < (match b with | none => n | some b => normBound n b))
 
 /-- `PINN.eval_nn(inputs, params)`:
     `res = output_transform(inputs, model(input_transform(inputs, params)).squeeze(), params)`;
@@ -278,11 +304,13 @@ def declaredIn (specs : List LayerSpec) : Except String Nat :=
   | .act _ :: .lin i _ :: _ => .ok i
   | _ => .error eIndex
 
-/-- `slice_solution`: `None` ↦ `0:nb_outputs_declared`, an `int i` ↦ `i:i+1`, a slice is kept. -/
-def sliceSolution (user : Option OutSlice) (nOut : Nat) : Nat × Nat :=
+/-- `slice_solution` as stored by `create_PINN` / `create_HYPERPINN`: `None` ↦ `0:nb_outputs_declared`,
+    an `int i` ↦ `i:i+1`, with an open upper bound for `i = -1` (`s_[-1:0]` would select nothing —
+    repaired in /repo cbb01ea), a slice is kept. -/
+def sliceSolution (user : Option OutSlice) (nOut : Nat) : Option Int × Option Int :=
   match user with
-  | none => (0, nOut)
-  | some (.index i) => (i, i + 1)
+  | none => (some 0, some (nOut : Int))
+  | some (.index i) => (some i, if i = -1 then none else some (i + 1))
   | some (.range a b) => (a, b)
 
 /-! ## HYPERPINN -/
